@@ -1248,3 +1248,318 @@ def falsify_builder_routes(m, out, eo=None):
         if h.get("alg") != want or sig == b"":
             return "a builder holding a key emitted alg=%s with %d signature bytes (pinned %s): %s" % (h.get("alg"), len(sig), want, desc)
     return None
+
+
+# =====================================================================================
+# JWK / keyring suites (C07, C08, C16)
+# =====================================================================================
+JSON_TYPES = [("null", None), ("int", 7), ("real", 1.5), ("true", True), ("array", ["AQAB"]), ("object", {"a": 1}),
+              ("empty", ""), ("notb64", "!!!!"), ("len1", "A")]
+
+
+def base_jwks(pool):
+    out = []
+    for name, key in pool.keys.items():
+        out.append((name + "-priv", key.jwk(private=True, alg=key.admissible_algs()[0], extra={"kid": "k-" + name, "use": "sig", "key_ops": ["sign", "verify"]})))
+        if key.kind != "oct":
+            out.append((name + "-pub", key.jwk(private=False)))
+    return out
+
+
+def expect_items(tree):
+    """how many items a document adds (None = not JSON: error, nothing added)"""
+    if isinstance(tree, dict) and "keys" in tree:
+        return len(tree["keys"]) if isinstance(tree["keys"], list) else 0
+    return 1
+
+
+def jwk_shapes_suite(world, pool, tier, rng):
+    metas = []
+    thorough = tier == "thorough"
+    docs = []     # (label, bytes, via)
+    for label, jwk in base_jwks(pool):
+        docs.append((label + ":valid", json.dumps(jwk).encode(), "strn"))
+        members = list(jwk.keys()) + ["zzz"]
+        for m in members:
+            j2 = dict(jwk)
+            j2.pop(m, None)
+            docs.append(("%s:%s=absent" % (label, m), json.dumps(j2).encode(), "strn"))
+            for tname, tv in JSON_TYPES:
+                j2 = dict(jwk)
+                j2[m] = tv
+                docs.append(("%s:%s=%s" % (label, m, tname), json.dumps(j2).encode(), "strn"))
+            if isinstance(jwk.get(m), str) and len(jwk[m]) > 8:
+                for tname, tv in (("truncated", jwk[m][:-4]), ("extended", jwk[m] + "AAAA"), ("flipped", ("B" if jwk[m][0] != "B" else "C") + jwk[m][1:])):
+                    j2 = dict(jwk)
+                    j2[m] = tv
+                    docs.append(("%s:%s=%s" % (label, m, tname), json.dumps(j2).encode(), "strn"))
+        if thorough:
+            for _ in range(120):
+                j2 = dict(jwk)
+                for m in rng.sample(members, 2):
+                    j2[m] = rng.choice(JSON_TYPES)[1]
+                docs.append((label + ":pair", json.dumps(j2).encode(), "strn"))
+    some = [j for _, j in base_jwks(pool)]
+    # documents that are not JWK objects
+    for label, text in [("notjson", b"{"), ("empty", b""), ("garbage", b"\xff\xfe{}"), ("scalar-int", b"5"), ("scalar-str", b'"x"'),
+                        ("null", b"null"), ("array", b"[1,2]"), ("array-of-jwk", json.dumps(some[:2]).encode()), ("empty-object", b"{}"),
+                        ("nested-set", json.dumps({"keys": [{"keys": some[:1]}]}).encode()), ("trailing", b"{} x"), ("dup-kty", b'{"kty":"oct","kty":"RSA","k":"AAAA"}'),
+                        ("nul-inside", b'{"kty":"oct","k":"AAAA"}\x00{"x'), ("nul-in-string", b'{"kty":"oct\\u0000","k":"AAAA"}'), ("bom", b'\xef\xbb\xbf{}'),
+                        ("deep", b"[" * 3000 + b"]" * 3000), ("bigint", b'{"kty":99999999999999999999}'), ("kty-case", b'{"kty":"rsa"}'),
+                        ("kty-space", b'{"kty":"RSA "}')]:
+        docs.append((label, text, "strn"))
+    for tname, tv in JSON_TYPES + [("emptyarr", []), ("mixed", [some[0], 5, None, "x", {}, some[1]])]:
+        docs.append(("keys=" + tname, json.dumps({"keys": tv}).encode(), "strn"))
+    for n in (0, 1, 2, 10, 50):
+        docs.append(("keys[%d]" % n, json.dumps({"keys": [some[i % len(some)] for i in range(n)]}).encode(), "strn"))
+    # entry points
+    for via in ("str", "create", "file", "fp", "strn"):
+        docs.append(("via-" + via, json.dumps(some[0]).encode(), via))
+        docs.append(("via-%s-bad" % via, b"{not json", via))
+        docs.append(("via-%s-nul" % via, json.dumps(some[0]).encode() + b"\x00trailing", via))
+        docs.append(("via-%s-set" % via, json.dumps({"keys": some[:3]}).encode(), via))
+    docs.append(("via-str-NULL", None, "str"))
+    for _ in range(3000 if thorough else 300):
+        b = bytearray(json.dumps(rng.choice(some)).encode())
+        for _ in range(rng.randrange(1, 4)):
+            i = rng.randrange(len(b))
+            r = rng.random()
+            if r < 0.4:
+                b[i] = rng.choice(b'"{}[],:0a\\')
+            elif r < 0.7:
+                del b[i]
+            else:
+                b.insert(i, rng.choice(b'"{}[],:0a\\ \x00\x80'))
+        docs.append(("mutated-text", bytes(b), "strn"))
+    for di, (label, text, via) in enumerate(docs):
+        s = 300 + (di % 600)
+        world.op("jwks %d del" % s, cmp=False, tag="cfg")
+        if via in ("str", "create") and text is not None:
+            t = text.split(b"\0")[0]
+        else:
+            t = text
+        ok, tree = JL.loads(t, decode_any=True) if t is not None else (False, None)
+        ni = expect_items(tree) if ok else 0
+        pos = len(world.ops) + (len(world.keyorc_lines(tree)) if ok else 0)
+        world.load_doc(s, text, via)
+        metas.append((pos, {"kind": "load", "label": label, "via": via, "json": ok, "n": ni, "null": text is None}))
+        if text is None:
+            continue
+        for i in range(min(ni, 4) + 1):
+            metas.append((len(world.ops), {"kind": "item", "label": label, "idx": i, "exists": i < ni}))
+            world.op("jwks %d item %d" % (s, i), tag="item")
+        world.op("jwks %d errany" % s, tag="item")
+    return metas
+
+
+def falsify_jwk_shapes(m, out, eo=None):
+    if m["kind"] == "load":
+        if m["null"]:
+            return None if out in ("NULL", "noset") else "loading a NULL string returned %s" % out
+        err, n = field(out, "err"), field(out, "n")
+        if err is None:
+            return "load of %s (%s) returned %s" % (m["label"], m["via"], out)
+        if not m["json"]:
+            if err != "1" or n != "0" or field(out, "emsg") != "1":
+                return "text that is not JSON (%s): set error=%s msg=%s items=%s" % (m["label"], err, field(out, "emsg"), n)
+        elif n != str(m["n"]) or err != "0":
+            return "document %s: expected %d item(s) and no set error, got n=%s err=%s" % (m["label"], m["n"], n, err)
+    else:
+        if not m["exists"]:
+            return None if out == "none" else "item beyond the expected count exists: %s" % out
+        if out == "none":
+            return "expected item %d of %s is missing" % (m["idx"], m["label"])
+        err, emsg = field(out, "err"), field(out, "emsg")
+        if err == "1":
+            if emsg != "1":
+                return "item of %s flagged bad with an empty message" % m["label"]
+        else:
+            usable_ = field(out, "kty") != "0" and (field(out, "pem") == "1" or field(out, "oct") not in ("NULL", None))
+            if not usable_:
+                return "item of %s reports no error but is not a usable key: %s" % (m["label"], out)
+            if emsg != "0":
+                return "item without error carries a message"
+    return None
+
+
+def jwk_import_suite(world, pool, tier, rng):
+    """C08: freshly generated keys of every type in several JWK spellings; imported item compared with
+    what the JWK states; PEM compared component-wise through the independent oracle"""
+    metas = []
+    thorough = tier == "thorough"
+    specs = [("rsa", 2048), ("rsapss", 2048), ("ec", "P-256"), ("ec", "P-384"), ("ec", "P-521"), ("ec", "secp256k1"),
+             ("okp", "ED25519"), ("okp", "ED448")]
+    if thorough:
+        specs += [("rsa", 3072), ("rsa", 4096)]
+    keys_ = [(k, K.gen_key(*k, workdir=world.ctx.scratch)) for k in specs for _ in range(4 if thorough and k[0] != "rsa" else 1)]
+    for n in ([1, 2, 16, 31, 32, 33, 64, 100, 255, 256, 512] if thorough else [1, 16, 32, 64, 512]):
+        keys_.append((("oct", n), K.Key("oct", k=bytes(rng.randrange(256) for _ in range(n)), bits=8 * n)))
+    s = 1000
+    OPS = {"sign": 1, "verify": 2, "encrypt": 4, "decrypt": 8, "wrapKey": 16, "unwrapKey": 32, "deriveKey": 64, "deriveBits": 128}
+    for spec, key in keys_:
+        variants = []
+        for private in ((True, False) if key.kind != "oct" else (True,)):
+            for alg in [None] + key.admissible_algs()[:2]:
+                for pad in ((True, False) if key.kind == "ec" else (True,)):
+                    extra = {}
+                    r = rng.random()
+                    if r < 0.5:
+                        extra["kid"] = rng.choice(["", "k1", "ключ", "a" * 300])
+                    if rng.random() < 0.5:
+                        extra["use"] = rng.choice(["sig", "enc", "other", "SIG"])
+                    if rng.random() < 0.5:
+                        extra["key_ops"] = rng.sample(list(OPS) + ["bogus", "Sign"], rng.randrange(0, 4))
+                    if rng.random() < 0.5:
+                        # members that do not belong to the key type, or that nobody knows
+                        foreign = {"oct": {"n": "AQAB", "crv": "P-256", "x5c": ["x"]}, "rsa": {"k": "AAAA", "crv": "P-256", "x": "AAAA"},
+                                   "rsapss": {"k": "AAAA", "y": 5}, "ec": {"n": "AQAB", "k": None, "p": "AQ"}, "okp": {"y": "AAAA", "n": 1, "e": "AQAB"}}[key.kind]
+                        extra.update(foreign)
+                        extra["zz-unknown"] = {"deep": [1, 2, {"x": None}]}
+                    variants.append((private, alg, pad, extra))
+        for private, alg, pad, extra in variants:
+            jwk = key.jwk(private=private, alg=alg, extra=extra, pad=pad)
+            if key.kind == "rsa" and not pad:
+                continue
+            world.op("jwks %d del" % s, cmp=False, tag="cfg")
+            world.load_doc(s, json.dumps(jwk).encode(), "strn")
+            ops = 0
+            for o in extra.get("key_ops", []):
+                ops |= OPS.get(o, 0)
+            kid = extra.get("kid") or None
+            want = {"kty": {"ec": 1, "rsa": 2, "rsapss": 2, "okp": 3, "oct": 4}[key.kind], "alg": K.ALG_ORD[alg] if alg else 0, "bits": key.bits,
+                    "priv": 1 if (private or key.kind == "oct") else 0, "err": 0, "emsg": 0, "kid": hx(kid.encode()) if kid else "NULL",
+                    "use": {"sig": 1, "enc": 2}.get(extra.get("use"), 0), "ops": ops,
+                    "crv": hx(key.crv.encode()) if key.kind in ("ec", "okp") else "NULL", "pem": 0 if key.kind == "oct" else 1,
+                    "oct": hx(key.k) if key.kind == "oct" else "NULL"}
+            metas.append((len(world.ops), {"kind": "import", "key": str(spec), "private": private, "alg": alg, "pad": pad,
+                                           "extra": sorted(extra), "want": want}))
+            world.op("jwks %d item 0" % s, tag="item")
+            if key.kind != "oct":
+                metas.append((len(world.ops), {"kind": "pem", "key": str(spec), "private": private, "keyobj": key}))
+                world.op("jwks %d pem 0" % s, cmp=False, tag="item")
+            s += 1
+            if s > 1020:
+                s = 1000
+    return metas
+
+
+def falsify_jwk_import(m, out, eo=None, _orc=[None]):
+    if m["kind"] == "import":
+        got = dict(t.split("=", 1) for t in out.split() if "=" in t)
+        bad = {k: (got.get(k), str(v)) for k, v in m["want"].items() if got.get(k) != str(v)}
+        if bad:
+            return "imported item differs from what the JWK states (%s private=%s alg=%s pad=%s extra=%s): %s" % (
+                m["key"], m["private"], m["alg"], m["pad"], m["extra"], bad)
+    elif m["kind"] == "pem":
+        from lib import unhx
+        orc = falsify_jwk_import.oracle
+        pem = unhx(out)
+        if pem is None:
+            return "no PEM for an imported %s key" % m["key"]
+        try:
+            kid = orc.add_key(pem)
+        except RuntimeError:
+            return "PEM of the imported %s key does not parse" % m["key"]
+        key = m["keyobj"]
+        if key.kind != "rsapss":      # a JWK cannot say "PSS only": the import is a plain RSA key with the same n, e
+            ref = orc.add_key(key.pem(m["private"]))
+            if orc._ask("eq %d %d" % (kid, ref)) != "1":
+                return "imported %s key has different public components than the key the JWK encodes" % m["key"]
+        alg = key.admissible_algs()[0]
+        if m["private"]:
+            sig = orc.sign(kid, alg, b"probe")
+            pub = orc.add_key(key.pem(False))
+            if sig is None or not orc.verify(pub, alg, b"probe", sig):
+                return "private components of the imported %s key do not match (signature by the import fails under the original public key)" % m["key"]
+        else:
+            prv = orc.add_key(key.pem(True))
+            sig = orc.sign(prv, alg, b"probe")
+            if sig is None or not orc.verify(kid, alg, b"probe", sig):
+                return "public components of the imported %s key do not match (a signature by the original key fails under the import)" % m["key"]
+    return None
+
+
+def keyring_suite(world, pool, tier, rng):
+    """C16: every operation sequence up to a length over loads and removals, list model as falsifier"""
+    metas = []
+    good = pool.keys["oct32"].jwk(extra={"kid": "k1"})
+    good2 = pool.keys["p256"].jwk(private=False, extra={"kid": "k2"})
+    bad = {"kty": "oct", "k": "", "kid": "kbad"}
+    docs = {"good": json.dumps(good).encode(), "bad": json.dumps(bad).encode(),
+            "mixed3": json.dumps({"keys": [good2, bad, dict(good, kid="k1")]}).encode(), "nonjson": b"{nope"}
+    # (kid, errored) per doc
+    content = {"good": [("k1", False)], "bad": [("kbad", True)], "mixed3": [("k2", False), ("kbad", True), ("k1", False)], "nonjson": None}
+    alphabet = [("load", d) for d in docs] + [("free", 0), ("free", 1), ("free", "last"), ("free", 99), ("freebad",), ("freeall",),
+                                              ("find", "k1"), ("find", "kbad"), ("find", "nope"), ("find", ""), ("errclr",)]
+    maxlen = 4 if tier == "thorough" else 3
+    seqs = [s for n in range(1, maxlen + 1) for s in itertools.product(range(len(alphabet)), repeat=n)]
+    if tier != "thorough":
+        seqs = [s for s in seqs if len(s) < 3] + rng.sample([s for s in seqs if len(s) == 3], 700)
+    else:
+        seqs = [s for s in seqs if len(s) < 4] + rng.sample([s for s in seqs if len(s) == 4], 6000)
+    seqs += [tuple(rng.randrange(len(alphabet)) for _ in range(rng.randrange(5, 200))) for _ in range(60 if tier == "thorough" else 12)]
+    S0 = 900
+    for si, sq in enumerate(seqs):
+        world.op("jwks %d del" % S0, cmp=False, tag="cfg")
+        world.load_doc(S0, b'{"keys":[]}', "strn", tag="cfg")       # an empty set to start from
+        lst, seterr = [], 0
+        for ai in sq:
+            a = alphabet[ai]
+            if a[0] == "load":
+                c = content[a[1]]
+                if c is None:
+                    seterr = 1
+                else:
+                    lst = lst + list(c)
+                pos = len(world.ops) + len(world.keyorc_lines(JL.loads(docs[a[1]], decode_any=True)[1])) if c is not None else len(world.ops)
+                world.load_doc(S0, docs[a[1]], "strn")
+                metas.append((pos, {"kind": "kr", "op": "load " + a[1], "want": "err=%d emsg=%d n=%d" % (seterr, seterr, len(lst))}))
+            elif a[0] == "free":
+                idx = len(lst) - 1 if a[1] == "last" else a[1]
+                if idx < 0:
+                    idx = 0
+                ok = 0 <= idx < len(lst)
+                if ok:
+                    lst = lst[:idx] + lst[idx + 1:]
+                metas.append((len(world.ops), {"kind": "kr", "op": "free %d" % idx, "want": "1" if ok else "0"}))
+                world.op("jwks %d free %d" % (S0, idx), tag="kr")
+            elif a[0] == "freebad":
+                nb = sum(1 for _, e in lst if e)
+                lst = [x for x in lst if not x[1]]
+                metas.append((len(world.ops), {"kind": "kr", "op": "freebad", "want": str(nb)}))
+                world.op("jwks %d freebad" % S0, tag="kr")
+            elif a[0] == "freeall":
+                metas.append((len(world.ops), {"kind": "kr", "op": "freeall", "want": str(len(lst))}))
+                lst = []
+                world.op("jwks %d freeall" % S0, tag="kr")
+            elif a[0] == "find":
+                want = next((i for i, (k, _) in enumerate(lst) if k == a[1] and a[1] != ""), -1)
+                metas.append((len(world.ops), {"kind": "kr", "op": "find " + a[1], "want": str(want)}))
+                world.op("jwks %d find %s" % (S0, hx(a[1].encode())), tag="kr")
+            else:
+                seterr = 0
+                world.op("jwks %d errclr" % S0, tag="kr")
+            # probes after every step
+            metas.append((len(world.ops), {"kind": "kr", "op": "count", "want": str(len(lst))}))
+            world.op("jwks %d count" % S0, tag="kr")
+            metas.append((len(world.ops), {"kind": "kr", "op": "errany", "want": str(seterr + sum(1 for _, e in lst if e))}))
+            world.op("jwks %d errany" % S0, tag="kr")
+            for i in sorted({0, len(lst) - 1, len(lst)} - {-1}):
+                w = "none" if i >= len(lst) else ("kid=%s err=%d" % (hx(lst[i][0].encode()), 1 if lst[i][1] else 0))
+                metas.append((len(world.ops), {"kind": "kr-item", "op": "get %d" % i, "want": w}))
+                world.op("jwks %d item %d" % (S0, i), tag="kr")
+    world.op("jwks %d del" % S0, cmp=False, tag="cfg")
+    return metas
+
+
+def falsify_keyring(m, out, eo=None):
+    if m["kind"] == "kr":
+        if out != m["want"]:
+            return "%s answered `%s`, an ordered list gives `%s`" % (m["op"], out, m["want"])
+    else:
+        if m["want"] == "none":
+            return None if out == "none" else "%s returned an item beyond the end of the list" % m["op"]
+        got = "kid=%s err=%s" % (field(out, "kid"), field(out, "err"))
+        if got != m["want"]:
+            return "%s returned `%s`, the list holds `%s` there" % (m["op"], got, m["want"])
+    return None
